@@ -467,6 +467,9 @@ class FD:
                     bound._fd_callable = True
                 return bound
             if '__classdef__' in base.attrs and not (e.attr.startswith('__') and e.attr.endswith('__')):
+                pv = self.class_property(base, e.attr)
+                if pv is not _MISSING:
+                    return pv
                 bm = self.class_method(base, e.attr)
                 if bm is not None:
                     bm = (lambda f: (lambda *a, **k: f(*a, **k)))(bm)
@@ -1126,6 +1129,27 @@ class FD:
                     for k in self.sym.mro(ci)[1:]:
                         todo.append(k.node)
         return None
+
+    def class_property(self, obj, attr):
+        """Value of a @property of the object's class (or of its pedal base classes), computed by interpreting the
+        getter; _MISSING if the class defines no such property."""
+        cd = obj.attrs.get('__classdef__')
+        if cd is None:
+            return _MISSING
+        from .astutil import dotted
+        chain = [cd]
+        if self.sym is not None and getattr(cd, '_module', None) is not None:
+            ci = self.sym.classes.get((cd._module.name, getattr(cd, '_qualname', cd.name)))
+            if ci is not None:
+                chain = [k.node for k in self.sym.mro(ci) if hasattr(k, 'node')]
+        for c in chain:
+            for st in c.body:
+                if isinstance(st, ast.FunctionDef) and st.name == attr:
+                    decos = [dotted(d) for d in st.decorator_list]
+                    if 'property' in decos or 'cached_property' in decos or 'functools.cached_property' in decos:
+                        return self.call_function(st, [], {}, bound_self=obj)
+                    return _MISSING
+        return _MISSING
 
     def bind_methods(self, obj, methods, skip=()):
         """Attach the given {name: FunctionDef} as abstractly-executed bound methods of obj."""
